@@ -34,15 +34,15 @@ CHECKS = {
    note=BFT_NOTE + " Fairness of the suffix is part of the trusted base; L = 5 is calibrated on the unchanged tree then frozen."),
  "C10": dict(engine="bftsim", design="DESIGN.md section 5 (C10)",
    technique="deterministic simulation with a Byzantine adversary sending well-signed absurd messages; panic oracle",
-   text="Message-level half of C10: Byzantine validators send well-signed consensus messages with extreme field values (view/block numbers 0,1,2^64-2,2^64-1, empty and oversized signer sets, oversized payloads, empty certificates) into running clusters; any panic in code under test (outside an already crashed incarnation) is a violation: the harness profile unwinds, a production build aborts. Byzantine validators also attach corrupted copies of genuine certificates to well-signed timeouts.",
+   text="Message-level half of C10: Byzantine validators send well-signed consensus messages with extreme field values (view/block numbers 0,1,2^64-2,2^64-1, empty and oversized signer sets, oversized payloads, empty certificates) into running clusters; any panic in code under test (outside an already crashed incarnation) is a violation: the harness profile unwinds, a production build aborts. Byzantine validators also attach corrupted copies of genuine certificates to well-signed timeouts. Population node/limits (whole node over simulated TCP, authenticated peer which floods all RPCs, serves get_block itself and announces absurd block-store ranges such as last = 2^64-1): any panic inside the node is a violation.",
    note="Decoders as pure functions over all byte strings are not claimed (DESIGN section 6); the byte-stream half is added by the pipe engine."),
  "C08": dict(engine="primsim", design="DESIGN.md section 5 (C08)",
    technique="deterministic simulation of the real EngineManager over a simulated disk with lag / jumps / pruning / restarts and concurrent submitters; reference chain + history oracles",
-   text="A genuine certified chain plus invalid variants is submitted concurrently, in and out of order and duplicated, to the real EngineManager while readers call get_block and the simulated persistence layer lags, jumps ahead through a side channel, prunes and is restarted from its durable state. Oracles: only genuine blocks reach the execution layer, in order and without gaps from the durable head; never two blocks for one number; queued/persisted ranges consistent at every step; any number inside queued() reads back the genuine block until pruned; invalid submissions are rejected. The same oracles are active on the manager inside every consensus-cluster run.",
+   text="A genuine certified chain plus invalid variants is submitted concurrently, in and out of order and duplicated, to the real EngineManager while readers call get_block and the simulated persistence layer lags, jumps ahead through a side channel, prunes and is restarted from its durable state. Oracles: only genuine blocks reach the execution layer, in order and without gaps from the durable head; never two blocks for one number; queued/persisted ranges consistent at every step; any number inside queued() reads back the genuine block until pruned; invalid submissions are rejected. The same oracles are active on the manager inside every consensus-cluster run. Additional oracle: within one store instance neither end of queued() ever moves backwards (what was reported available stays available until pruned); invalid variants include a certificate for an epoch without known schedule that is genuinely signed by the committee.",
    note="EngineInterface contract: queue_next_block accepts the block directly after the previously queued one; blocks at or below the durable head are ignored. The peer path (blocks arriving as get_block RPC answers from real nodes, some of them altered) is the node/sync population."),
  "C12": dict(engine="primsim", design="DESIGN.md section 5 (C12)",
    technique="deterministic simulation of whole network nodes over simulated TCP against a handshake adversary (replay, relay, forged signer, wrong chain, outsider, impersonating the dialled peer); ground-truth oracle on who holds which secret; plus the real connection pool under concurrent inserts/removes against a reference set model",
-   text="Handshake half: a real node runs its accept loop, preface, noise and handshake code and dials peers from its address book over a simulated TCP layer; the adversary holds a Byzantine committee key and outsider keys, can listen, dial, hijack an address and record handshakes of a second honest node, and plays one of 14 strategies per run. Whenever an identity appears in one of the victim's four pools the harness demands a live connection in that direction whose far-end actor holds that identity's secret key, committee membership on the validator network, and the inbound quota for unlisted gossip peers. Pool half: concurrent connections race for the same identities and for the quota of unlisted peers on the real PoolWatch; after every step the pool holds at most one entry per key and at most `quota` keys outside the allowed set, every admission decision equals a reference set model, and the quota neither leaks nor over-admits. Strategies now number 17 (own-identity claim racing the loopback connection, repeated identities on the gossip endpoint, hijack of the victim's own address); oracles: per-connection attribution (the far end of the very connection holding a pool entry must hold the key; hook H4 reports the TCP peer address of inbound entries), at quiescent points at most one admitted connection per identity and every pool entry backed by a connection the node still holds.",
+   text="Handshake half: a real node runs its accept loop, preface, noise and handshake code and dials peers from its address book over a simulated TCP layer; the adversary holds a Byzantine committee key and outsider keys, can listen, dial, hijack an address and record handshakes of a second honest node, and plays one of 14 strategies per run. Whenever an identity appears in one of the victim's four pools the harness demands a live connection in that direction whose far-end actor holds that identity's secret key, committee membership on the validator network, and the inbound quota for unlisted gossip peers. Pool half: concurrent connections race for the same identities and for the quota of unlisted peers on the real PoolWatch; after every step the pool holds at most one entry per key and at most `quota` keys outside the allowed set, every admission decision equals a reference set model, and the quota neither leaks nor over-admits. Strategies now number 17 (own-identity claim racing the loopback connection, repeated identities on the gossip endpoint, hijack of the victim's own address); oracles: per-connection attribution (the far end of the very connection holding a pool entry must hold the key; hook H4 reports the TCP peer address of inbound entries), at quiescent points at most one admitted connection per identity and every pool entry backed by a connection the node still holds. Strategy GO: the victim has two configured outbound gossip peers and the adversary answers at the address of one with a genuine handshake of the other.",
    note="The adversary cannot forge signatures (ed25519 / BLS assumed unforgeable); address announcements reach the victim's book through its real push_validator_addrs RPC handler (entered by hook H4) rather than through a gossip connection."),
  "C13": dict(engine="pipesim", design="DESIGN.md section 5 (C13)", level="fault_enumeration",
    technique="deterministic simulation of the real noise stream over fragmenting / back-pressuring pipes, plus enumeration of every single-point ciphertext tampering (frame x kind) per base session",
@@ -50,11 +50,11 @@ CHECKS = {
    note="Per base run the (frame, kind) space is enumerated completely; positions inside a frame are represented by one byte per kind (length, body, tag). snow and ChaChaPoly are trusted."),
  "C14": dict(engine="pipesim", design="DESIGN.md section 5 (C14)",
    technique="deterministic simulation of two real multiplexers over a fragmenting pipe with generated application workers; pairing / ordering / EOS / stream-limit / buffer-bound oracles",
-   text="Two real Mux endpoints with random, unequal capability and stream limits and tiny buffer limits exchange self-describing data on many concurrent transient streams in both directions. After the run the uses of both sides must pair up one-to-one per capability, each reader having received exactly its counterpart's bytes in order (complete when read to end-of-stream), end-of-stream only after the counterpart closed; during the run streams held per capability never exceed min(local, peer limit) and payload pulled from the transport but not consumed never exceeds read_buffer_size.",
+   text="Two real Mux endpoints with random, unequal capability and stream limits and tiny buffer limits exchange self-describing data on many concurrent transient streams in both directions. After the run the uses of both sides must pair up one-to-one per capability, each reader having received exactly its counterpart's bytes in order (complete when read to end-of-stream), end-of-stream only after the counterpart closed; during the run streams held per capability never exceed min(local, peer limit) and payload pulled from the transport but not consumed never exceeds read_buffer_size. 10 % of the pipe/mux runs use frame sizes at and just above the largest length a frame header can carry (65535 / 65536 / 65537) and single writes of 65-70 kB without flush: a configuration the multiplexer refuses is fine, delivering anything but the bytes written is not.",
    note="Buffer bound checked with cooperative readers only (see evidence assumptions); non-cooperative frame-level peers belong to the C10 byte-level check."),
  "C15": dict(engine="primsim", design="DESIGN.md section 5 (C15)",
    technique="deterministic simulation of the real Limiter (seeded schedules, director-controlled clock, cancellations; token-bucket / FIFO / leak oracles) and of a real rpc::Service server against honest and greedy clients (wire-level OPEN timestamps, handler concurrency)",
-   text="Per-RPC-stream half: a real rpc::Service server over a simulated pipe faces the real client or a greedy raw-multiplexer client; the OPEN frames the server sends per RPC (parsed from its wire, stamped with simulated time) obey burst + T/refresh + 1 in every window, handler starts obey it up to the INFLIGHT streams opened earlier, and never more than INFLIGHT handlers run concurrently. Limiter half: 1-6 client tasks acquire / hold / drop / cancel on the real Limiter while the director advances the manual clock; over the grant history: no window of length T sees more than burst + T/refresh + 1 permits, waiters are served in arrival order, cancelled waits consume nothing (no leak: acquire(burst) is immediate after burst*refresh of idleness), nothing above burst is ever granted.",
+   text="Per-RPC-stream half: a real rpc::Service server over a simulated pipe faces the real client or a greedy raw-multiplexer client; the OPEN frames the server sends per RPC (parsed from its wire, stamped with simulated time) obey burst + T/refresh + 1 in every window, handler starts obey it up to the INFLIGHT streams opened earlier, and never more than INFLIGHT handlers run concurrently. Limiter half: 1-6 client tasks acquire / hold / drop / cancel on the real Limiter while the director advances the manual clock; over the grant history: no window of length T sees more than burst + T/refresh + 1 permits, waiters are served in arrival order, cancelled waits consume nothing (no leak: acquire(burst) is immediate after burst*refresh of idleness), nothing above burst is ever granted. In situ (population node/limits): a whole network::Network node with per-run randomised Config.rpc rates and an adversary that authenticates properly on the validator and gossip endpoints and then speaks through a raw multiplexer without limiter (12 announced streams per RPC, idle phases, 1-6 greedy workers per RPC); requests are observed behind the node (consensus input channel with withheld acks, execution-layer calls for get_block / push_tx, ping responses, completed stream opens) and must obey the rate configured for their RPC: starts <= burst + T/refresh + 1 + INFLIGHT, opens <= burst + T/refresh + 1 + min(INFLIGHT, burst), concurrent consensus requests <= INFLIGHT.",
    note="Time is the ManualClock; interleavings at await-point granularity."),
  "C17": dict(engine="primsim", design="DESIGN.md section 5 (C17)",
    technique="deterministic simulation: generated task-tree programs (async and blocking tasks) on the real scope::run! / run_blocking! under seeded schedules with preemption points inside the failure path; event-log oracle",
